@@ -360,38 +360,46 @@ def check(prop, tier, replay=None):
         if (prop == "C16") != (kind in ("slice", "sec")):
             continue
         n = c["n"]
-        if kind == "slice":
-            sw, ch = BPS2FMT[c["bps"]]
-            r = core.AudioRegion(make_audio(n, sw, ch), 16000, sw, ch)
-            a, b = c["a"], c["b"]
-            got = r[(None if a == NONE else a):(None if b == NONE else b)]
-            exp = list(range(c["res"][0] + 1, c["res"][1] + 1))
-            ok = project(got, sw, ch) == exp and par_of(got) == [16000, sw, ch]
-            desc = f"AudioRegion({n} samples, sw={sw}, ch={ch})[{a if a != NONE else ''}:{b if b != NONE else ''}]"
-        elif kind == "sec":
-            sw, ch = FORMATS[ci % len(FORMATS)]
-            r = core.AudioRegion(make_audio(n, sw, ch), 8, sw, ch)      # rate 8: instants a/64 s are exact floats, x = a/8 samples
-            a, b = c["a"], c["b"]
-            ta, tb = a / 64, (None if b == NONE else b / 64)
-            got = r.seconds[ta:tb]
-            exp = list(range(c["res"][0] + 1, c["res"][1] + 1))
-            ok = project(got, sw, ch) == exp
-            if not ok and b != NONE and b % 8 == 4:
-                # the stop instant lies exactly between two samples: "nearest" does not say which; either neighbour is accepted
-                lo = c["res"][0]
-                for gb in (b // 8, b // 8 + 1):
-                    hi = max(lo, min(gb, n) if gb >= 0 else max(gb + n, 0))
-                    if project(got, sw, ch) == list(range(lo + 1, hi + 1)):
-                        ok = True
-            desc = f"AudioRegion({n} samples, sr=8, sw={sw}, ch={ch}).seconds[{ta}:{tb}]"
-        else:
-            sw, ch = FORMATS[ci % len(FORMATS)]
-            r = core.AudioRegion(make_audio(n, sw, ch), 10, sw, ch)
-            pieces = r / c["a"]
-            got = [len(x) for x in pieces]
-            exp = list(c["res"])
-            ok = got == exp and sum((project(x, sw, ch) for x in pieces), []) == list(range(1, n + 1)) and bytes(r) == make_audio(n, sw, ch)
-            desc = f"AudioRegion({n} samples) / {c['a']}"
+        try:
+          if kind == "slice":
+              sw, ch = BPS2FMT[c["bps"]]
+              r = core.AudioRegion(make_audio(n, sw, ch), 16000, sw, ch)
+              a, b = c["a"], c["b"]
+              got = r[(None if a == NONE else a):(None if b == NONE else b)]
+              exp = list(range(c["res"][0] + 1, c["res"][1] + 1))
+              ok = project(got, sw, ch) == exp and par_of(got) == [16000, sw, ch]
+              desc = f"AudioRegion({n} samples, sw={sw}, ch={ch})[{a if a != NONE else ''}:{b if b != NONE else ''}]"
+          elif kind == "sec":
+              sw, ch = FORMATS[ci % len(FORMATS)]
+              r = core.AudioRegion(make_audio(n, sw, ch), 8, sw, ch)      # rate 8: instants a/64 s are exact floats, x = a/8 samples
+              a, b = c["a"], c["b"]
+              ta, tb = a / 64, (None if b == NONE else b / 64)
+              got = r.seconds[ta:tb]
+              exp = list(range(c["res"][0] + 1, c["res"][1] + 1))
+              ok = project(got, sw, ch) == exp
+              if not ok and b != NONE and b % 8 == 4:
+                  # the stop instant lies exactly between two samples: "nearest" does not say which; either neighbour is accepted
+                  lo = c["res"][0]
+                  for gb in (b // 8, b // 8 + 1):
+                      hi = max(lo, min(gb, n) if gb >= 0 else max(gb + n, 0))
+                      if project(got, sw, ch) == list(range(lo + 1, hi + 1)):
+                          ok = True
+              desc = f"AudioRegion({n} samples, sr=8, sw={sw}, ch={ch}).seconds[{ta}:{tb}]"
+          else:
+              sw, ch = FORMATS[ci % len(FORMATS)]
+              r = core.AudioRegion(make_audio(n, sw, ch), 10, sw, ch)
+              pieces = r / c["a"]
+              got = [len(x) for x in pieces]
+              exp = list(c["res"])
+              ok = got == exp and sum((project(x, sw, ch) for x in pieces), []) == list(range(1, n + 1)) and bytes(r) == make_audio(n, sw, ch)
+              desc = f"AudioRegion({n} samples) / {c['a']}"
+        except MachineryError:
+            raise
+        except Exception as exc:  # noqa -- every exported case has bounds the statement covers: the code must not raise
+            nrun += 1
+            V.violation({"case": c}, f"AudioRegion case {c} ({kind}): the code raised {type(exc).__name__}: {str(exc)[:160]} "
+                                     f"where the specification gives {c['res']}", {"leg": "R", "case": c, "raised": type(exc).__name__})
+            continue
         nrun += 1
         if not ok:
             V.violation({"case": c}, f"{desc} -> {project(got, sw, ch) if kind != 'div' else got}; specification: {exp}", {"leg": "R", "case": c})
